@@ -40,7 +40,7 @@ REQUIRED_THEOREMS = [
     "Acn.C05.views_faithful", "Acn.C05.sched_sees_handed_view", "Acn.C05.view_true", "Acn.C05.view_true_valid",
     "Acn.C05.isolation_model", "Acn.C05.isolation_run", "Acn.C05.infra_static", "Acn.C05.sim_invoked_core",
 ]
-BUDGET = {"quick": 400, "thorough": 6000, "search": 1200}
+BUDGET = {"quick": 400, "thorough": 4000, "search": 1200}
 TRUSTED = ["copy.deepcopy / numpy array copy semantics (the isolation half is validated by the vandalising "
            "scheduler, not proved: a pure model cannot exhibit aliasing)",
            "CPython heapq contract (a <-minimal entry is popped); dict insertion order",
@@ -290,6 +290,26 @@ def _vandalise(algo, iface, sessions, schedule):
     return None           # σ is returned unchanged
 
 
+class Runaway(Exception):
+    """run() went on far beyond the last timestamp of the scenario"""
+
+
+class GuardNet(S.SnapshotNetwork):
+    """SnapshotNetwork that stops a run() that does not terminate (public extension point only)"""
+    limit = 10 ** 9
+
+    def post_charging_update(self):
+        super().post_charging_update()
+        if len(self.occ_log) > self.limit:
+            raise Runaway(f"still running in period {len(self.occ_log)}")
+
+
+def _bound(case):
+    ts = [0] + [s["arrival"] for s in case["sessions"]] + [s["departure"] for s in case["sessions"]] + \
+        [int(r) for r in case.get("recomputes", [])]
+    return max(ts) + 6
+
+
 def _one_run(case, vandal):
     views = []
     box = {}
@@ -308,10 +328,11 @@ def _one_run(case, vandal):
                 box["ns"]["k"] = k0
         return None
 
-    hooks = S.Hooks(before=before, after=after)
+    hooks = S.Hooks(before=before, after=after, network_cls=GuardNet)
     with S.noise_stream(case.get("noise", [])) as ns:
         box["ns"] = ns
         sim, ctx = S.build_sim(case, hooks)
+        ctx["network"].limit = _bound(case)
         box["sim"], box["ctx"] = sim, ctx
         try:
             from acnportal.signals.tariffs.tou_tariff import TimeOfUseTariff
@@ -449,6 +470,9 @@ def oracle(case, obs):
     inv = obs["invoked"]
     valid = S.is_valid_layout(case)
     vts = [v["t"] for v in views]
+
+    if obs["err"] == "Other:Runaway":
+        return [{"kind": "run_does_not_terminate", "detail": f"run() still going in period {obs['iter']}; last timestamp of the scenario {_bound(case) - 6}; invoked {inv[:40]}"}]
 
     # --- at most once per period, strictly increasing; every schedule() call belongs to a run() call
     if any(b <= a for a, b in zip(inv, inv[1:])):
